@@ -37,6 +37,12 @@ def cases(ctx):
                     if ctx.mine(k):
                         yield {"kind": "sweep", "flavour": flav, "mnemonic": cls.mnemonic,
                                "pos": list(pos) if pos else None, "base": codec.rand_values(rng, kinds)}
+    # user-defined flavours: one Flavour subclass instantiated for different devices (different instruction lists), and a
+    # flavour object extended after construction - each must print/parse with its OWN instruction set
+    for i in range(ctx.n(4, 60)):
+        k += 1
+        if ctx.mine(k):
+            yield {"kind": "custom-flavour", "flavour": "vanilla", "seed": rng.randrange(2**31)}
     for _ in range(ctx.n(300, 20000)):
         flav = rng.choice(["vanilla", "nv", "reids"])
         names = sorted(isa.TABLE[flav])
@@ -69,13 +75,21 @@ def _check_one(ctx, flav, fobj, m, vals, other=None):
     if type(p) is not type(instr) or codec.describe_instr(p) != [m, vals] or p != instr:
         return f"{flav}: printed text {text!r} parses back as {codec.describe_instr(p)}, expected {[m, vals]}"
     if other is not None:
+        # a consumer edits the parsed instruction in place (the NV transpiler re-points registers and branch targets of what
+        # it was handed); the same text parsed again must still give the instruction the text denotes
+        codec.edit_in_place(p, codec.mk_instr(fobj, flav, m, other))
+        ctx.count("parse_after_consumer_edit_checks")
+        try:
+            again = parse_text_subroutine(text, flavour=fobj).instructions
+        except Exception as e:
+            return f"{flav}: printed text {text!r} does not parse the second time: {type(e).__name__}: {e}"
+        if len(again) != 1 or codec.describe_instr(again[0]) != [m, vals]:
+            return (f"{flav}: after an earlier parse result was edited in place, the text {text!r} parses as "
+                    f"{[codec.describe_instr(x) for x in again]}")
+    if other is not None:
         # instructions are mutable (the transpiler retargets branches in place): after its operands were updated
         # the text printed for the *same object* must describe the updated instruction
-        import dataclasses
-        donor = codec.mk_instr(fobj, flav, m, other)
-        for f in dataclasses.fields(instr):
-            if f.name not in ("id", "mnemonic", "lineno"):
-                setattr(instr, f.name, getattr(donor, f.name))
+        codec.edit_in_place(instr, codec.mk_instr(fobj, flav, m, other))
         ctx.count("print_after_update_checks")
         text2 = str(instr)
         try:
@@ -88,9 +102,61 @@ def _check_one(ctx, flav, fobj, m, vals, other=None):
     return None
 
 
+def _custom_flavour(ctx, case):
+    """Two device flavours made from one user-defined Flavour subclass, each listing a different part of the vanilla / NV
+    instruction sets, created in random order, plus the stock flavours created in between."""
+    import random
+    from netqasm.lang.instr import flavour as fl
+    from netqasm.lang.parsing.text import parse_text_subroutine
+    r = random.Random(case["seed"])
+
+    class DeviceFlavour(fl.Flavour):
+        def __init__(self, instrs):
+            self._instrs = list(instrs)
+            super().__init__(self._instrs)
+
+        @property
+        def instrs(self):
+            return self._instrs
+
+    van = [c for c in codec.flavour_classes("vanilla") if c not in fl.CORE_INSTRUCTIONS]
+    nvs = [c for c in codec.flavour_classes("nv") if c not in fl.CORE_INSTRUCTIONS]
+    devices = []
+    for _ in range(r.choice([2, 3])):
+        base, name = r.choice([(van, "vanilla"), (nvs, "nv")])
+        devices.append((name, r.sample(base, r.randrange(1, len(base) + 1))))
+    objs = []
+    for name, lst in devices:
+        if r.random() < 0.5:
+            codec.fresh_flavour(r.choice(["vanilla", "nv"]))
+        objs.append(DeviceFlavour(lst))
+    for (name, lst), fobj in zip(devices, objs):
+        for cls in lst + r.sample(list(fl.CORE_INSTRUCTIONS), 5):
+            ent = isa.TABLE[name].get(cls.mnemonic)
+            if ent is None:
+                continue
+            vals = codec.rand_values(r, ent[1])
+            instr = codec.mk_instr_cls(cls, ent[1], vals)
+            ctx.count("custom_flavour_print_parse_checks")
+            text = str(instr)
+            try:
+                parsed = parse_text_subroutine(text, flavour=fobj).instructions
+            except Exception as e:
+                ctx.fail(case, f"device flavour listing {sorted(c.mnemonic for c in lst)}: printed text {text!r} of its own "
+                               f"instruction does not parse: {type(e).__name__}: {e}")
+                return ctx.case(case, True)
+            if len(parsed) != 1 or type(parsed[0]) is not cls or parsed[0] != instr:
+                ctx.fail(case, f"device flavour listing {sorted(c.mnemonic for c in lst)}: printed text {text!r} parses back as "
+                               f"{type(parsed[0]).__module__.split('.')[-1]}.{type(parsed[0]).__name__} {codec.describe_instr(parsed[0])}")
+                return ctx.case(case, True)
+    ctx.case(case, True)
+
+
 def run_case(ctx, case):
     from netqasm.lang.parsing import deserialize
     from netqasm.lang.parsing.text import parse_text_subroutine
+    if case["kind"] == "custom-flavour":
+        return _custom_flavour(ctx, case)
     flav = case["flavour"]
     fobj = codec.flavour_obj(flav)
     if case["kind"] == "sweep":
@@ -135,4 +201,18 @@ def run_case(ctx, case):
         ctx.fail(case, f"{flav}: parsed subroutine differs from the instructions that were printed")
     elif raw != isa.encode_subroutine(flav, [1, 0], 0, case["instrs"]):
         ctx.fail(case, f"{flav}: bytes of the re-parsed text differ from the reference encoding of the same program")
+    # the NV transpiler (or any consumer) edits the instructions of a parsed subroutine in place; parsing the same source
+    # again afterwards must give the program the source denotes
+    for ins_, (m, _) in zip(sub.instructions, case["instrs"]):
+        codec.edit_in_place(ins_, codec.mk_instr(fobj, flav, m, codec.rand_values(ctx.rng, isa.TABLE[flav][m][1])))
+    ctx.count("parse_after_consumer_edit_checks")
+    try:
+        sub2 = parse_text_subroutine(PRE + text1, flavour=fobj)
+    except Exception as e:
+        ctx.fail(case, f"{flav}: the same source does not parse a second time: {type(e).__name__}: {e}")
+        return ctx.case(case, True)
+    if [codec.describe_instr(i) for i in sub2.instructions] != [[m, v] for m, v in case["instrs"]]:
+        bad = next((f"{w} parsed as {g}" for g, w in zip([codec.describe_instr(i) for i in sub2.instructions], case["instrs"]) if g != [w[0], w[1]]), "length")
+        ctx.fail(case, f"{flav}: after the instructions of an earlier parse were edited in place, the same source parses differently: {bad}")
+        return ctx.case(case, True)
     ctx.case(case, nontrivial=True)
